@@ -41,7 +41,11 @@ type Conn struct {
 	Msgs []gen.MsgSpec `json:"msgs,omitempty"`
 	Junk HexBytes      `json:"junk,omitempty"` // bytes already in the receive buffer in front of the stream
 	// Receiver policies.
-	Compact bool `json:"compact,omitempty"`  // buffer policy: drop consumed bytes after each unit (else keep appending)
+	Compact bool `json:"compact,omitempty"` // buffer policy: drop consumed bytes after each unit (else keep appending)
+	// Realloc: the receiver's buffer lives in a new backing array (of exactly the needed size) at
+	// every call, as a growing / reallocating stream buffer does; the library may keep offsets, not
+	// slices of earlier calls.
+	Realloc bool `json:"realloc,omitempty"`
 	Obj     int  `json:"obj"`                // -1: brand-new object per unit; >=0: pooled object slot, reset between units and between connections
 	ResetBy int  `json:"reset_by,omitempty"` // sut.ByReset / sut.ByInit
 	Group   int  `json:"group,omitempty"`    // C19: connections of one group carry variants of one request
